@@ -390,7 +390,7 @@ class VerusUnit:
         with open(fn, "w") as f:
             f.write(out)
         rlimit = self.spec.get("rlimit", 10) * (4 if tier == "thorough" else 1)
-        cmd = ["verus", fn, "--output-json", "--time-expanded", "--multiple-errors", "20",
+        cmd = ["verus", fn, "--output-json", "--time-expanded", "--multiple-errors", str(self.spec.get("multiple_errors", 20)),
                "--rlimit", str(rlimit), "--num-threads", "8"]
         if seed:
             cmd += ["--smt-option", "smt.random_seed=%d" % (seed % 1000)]
